@@ -22,7 +22,7 @@ RULE = ('Hypothesis documents (profiles "full" with 4 encodings and "agnostic" w
         'other documents before, and kernpy.dump to a file must give the same texts as dumps; barline rows may be '
         'partially invisible ("=1-" in some spines only); profile "noclef": documents without any clef exported in the '
         'agnostic encodings under selections that leave no pitch (PITCH excluded, non-kern spines only, include lists '
-        'without PITCH) - option sets that leave a pitch are skipped there.  An evaluation is one (document, option set); non-trivial when at least two of the three options '
+        'without PITCH) - option sets that leave a pitch are not compared there: the export is made, whatever it returns or raises is ignored, and the option sets after it must be unaffected.  An evaluation is one (document, option set); non-trivial when at least two of the three options '
         'are non-default and each of them changes the output on its own.')
 ASSUMPTIONS = ['kv/xform.py (P, F, T) as validated by C04-C06 and C10', 'placeholders "." and "*" are interchangeable']
 
@@ -163,7 +163,13 @@ def check(case):
                 renders.append(X.render(r))
         except Bad as b_:
             if case['prof'] == 'noclef' and b_.sig == 'no-clef':
-                classes_extra.add('pitch-without-clef-skipped')  # a pitch is left and there is no clef: not defined
+                # a pitch is left and there is no clef: the outcome of this export is not defined - it is made all the
+                # same (it usually raises half-way through the rows) and must leave nothing behind for the next ones
+                classes_extra.add('pitch-without-clef-skipped')
+                try:
+                    kp.dumps(kdoc, **kwargs_for(o, kdoc, explicit=True))
+                except Exception:  # noqa
+                    classes_extra.add('undefined-export-raised')
                 continue
             raise
         if any(r != renders[0] for r in renders[1:]):
